@@ -128,6 +128,11 @@ func (c *ShipConnection) ApprovePendingHandshake() {
 	c.stopHandshakeTimer()
 	c.setAndHandleState(model.SmeHelloStateReadyInit)
 
+	// sending "ready" failed, the handshake has already been ended
+	if c.getState() != model.SmeHelloStateReadyListen {
+		return
+	}
+
 	// TODO: check if we need to do some validations before moving on to the next state
 	c.setAndHandleState(model.SmeHelloStateOk)
 }
